@@ -91,14 +91,17 @@ AdvertisedName(s, a) == IF a.svc # "" THEN a.svc ELSE IF s.kind = "connect-proxy
 Assigned(c, s, a) == \E v \in c.vips : v.name = AdvertisedName(s, a) /\ v.peer = s.peer /\ v.tail = a.ip
 \* split by who advertises, so that a verdict names the path: a sidecar proxy (the destination's address), a
 \* connect-native instance (its own), a terminating gateway (one address per linked service)
-AdvertisedVipCurrentProxy(c) == \A s \in c.svcs : \A a \in ToSet(s.adv) : (a.svc = "" /\ s.kind = "connect-proxy") => Assigned(c, s, a)
+AdvertisedVipCurrentProxy(c) == \A s \in c.svcs : \A a \in ToSet(s.adv) : (a.svc = "" /\ s.kind = "connect-proxy" /\ s.peer = "") => Assigned(c, s, a)
+\* the same for a sidecar proxy IMPORTED from a peer (the assignment of an imported service is released with the last
+\* instance of the service itself: the list of peered upstreams is derived from the assignments)
+AdvertisedVipCurrentProxyImported(c) == \A s \in c.svcs : \A a \in ToSet(s.adv) : (a.svc = "" /\ s.kind = "connect-proxy" /\ s.peer # "") => Assigned(c, s, a)
 AdvertisedVipCurrentOwn(c) == \A s \in c.svcs : \A a \in ToSet(s.adv) : (a.svc = "" /\ s.kind # "connect-proxy") => Assigned(c, s, a)
 \* a gateway's per-service address: while the gateway's config entry links the service ...
 Linked(c, s, a) == \E e \in c.tgw : e.gw = s.name /\ (a.svc \in ToSet(e.svcs) \/ "*" \in ToSet(e.svcs))
 AdvertisedVipCurrentGateway(c) == \A s \in c.svcs : \A a \in ToSet(s.adv) : (a.svc # "" /\ Linked(c, s, a)) => Assigned(c, s, a)
 \* ... and after the link is gone (the entry was deleted: an update that drops a service strips the address itself)
 AdvertisedVipStaleGatewayLink(c) == \A s \in c.svcs : \A a \in ToSet(s.adv) : (a.svc # "" /\ ~Linked(c, s, a)) => Assigned(c, s, a)
-AdvertisedVipCurrent(c) == AdvertisedVipCurrentProxy(c) /\ AdvertisedVipCurrentOwn(c) /\ AdvertisedVipCurrentGateway(c) /\ AdvertisedVipStaleGatewayLink(c)
+AdvertisedVipCurrent(c) == AdvertisedVipCurrentProxy(c) /\ AdvertisedVipCurrentProxyImported(c) /\ AdvertisedVipCurrentOwn(c) /\ AdvertisedVipCurrentGateway(c) /\ AdvertisedVipStaleGatewayLink(c)
 
 (* step property: deregistering a node / service leaves nothing of it behind *)
 CascadeComplete(pre, post) ==
